@@ -37,6 +37,7 @@ class Violation:
         self.what = what
         self.span = span
         self.config = config
+        self.props = None
 
     @property
     def key(self):
@@ -45,7 +46,7 @@ class Violation:
     def to_json(self):
         return {'rule': self.rule, 'status': self.status, 'root': self.root, 'chain': list(self.chain),
                 'primitive': self.prim, 'what': self.what, 'span': self.span, 'config': self.config,
-                'key': self.key, 'unwinding': self.unwinding}
+                'key': self.key, 'unwinding': self.unwinding, 'props': self.props}
 
     def __repr__(self):
         return '[%s/%s] %s :: %s @ %s (%s) — %s' % (self.rule, self.status, self.root,
@@ -58,6 +59,15 @@ class Outcome:
         self.kind = kind
         self.st = st
         self.val = val
+
+
+def tag_eq(z, a, b):
+    """structural equality of provenance tags; index terms are compared in the zone"""
+    if isinstance(a, (Term, int)) and not isinstance(a, bool) and isinstance(b, (Term, int)) and not isinstance(b, bool):
+        return a is b or a == b or z.entails_eq(a, b)
+    if isinstance(a, tuple) and isinstance(b, tuple):
+        return len(a) == len(b) and all(tag_eq(z, x, y) for x, y in zip(a, b))
+    return a == b
 
 
 def short(bid):
@@ -75,6 +85,8 @@ class Interp:
         self.vkeys = set()
         self.n_oblig = collections.Counter()
         self.n_ok = collections.Counter()
+        self.n_oblig_p = collections.Counter()   # obligations attributed to a property by the schema itself
+        self.n_ok_p = collections.Counter()
         self.samples = collections.defaultdict(list)
         self.stats = collections.Counter()
         self.root = None
@@ -119,8 +131,13 @@ class Interp:
     def site(self):
         return tuple(short(c) for c in self.chain)
 
-    def oblig(self, rule, ok, prim, what, status='refuted', sample=None):
+    def oblig(self, rule, ok, prim, what, status='refuted', sample=None, props=None):
         self.n_oblig[rule] += 1
+        if props:
+            for pp in props:
+                self.n_oblig_p[pp] += 1
+                if ok:
+                    self.n_ok_p[pp] += 1
         self.sites_seen[rule].add((self.root, self.site(), prim))
         if self.chain:
             self.cover.add((self.chain[-1], prim))
@@ -130,11 +147,12 @@ class Interp:
                 self.samples[rule].append({'root': self.root, 'chain': list(self.site()), 'primitive': prim,
                                            'span': self.cur_span, 'status': 'discharged', 'facts': sample})
             return True
-        self.violate(rule, status, prim, what)
+        self.violate(rule, status, prim, what, props)
         return False
 
-    def violate(self, rule, status, prim, what):
+    def violate(self, rule, status, prim, what, props=None):
         v = Violation(rule, status, self.root, self.site(), prim, what, self.cur_span, self.config)
+        v.props = list(props) if props else None
         v.unwinding = bool(getattr(self, 'in_unwind', False))
         if v.key not in self.vkeys:
             self.vkeys.add(v.key)
@@ -219,6 +237,8 @@ class Interp:
         return mid
 
     def mk_unknown(self, st, ty, tag, gs, owner_adt=None, depth=0):
+        if depth == 0:
+            self.invalidate_examined(st, tag)
         if ty is None or depth > 8:
             return ('opq', tag)
         k = ty.get('k')
@@ -548,7 +568,7 @@ class Interp:
                 self.stats['contract_pruned'] += 1
                 raise Pruned()
             st.log('len', ptr[1], v[1])
-            return slots.set_len(st, ptr[1], v[1])
+            return self.store_len(st, ptr[1], v[1])
         if k == 'pair':
             mid, idx, sub = ptr[1], ptr[2], ptr[3]
             kt, vt = slots.content(st, mid, idx)
@@ -581,7 +601,34 @@ class Interp:
             raise Unproven('store of %s into a slot' % v[0])
         raise Unproven('store to %r' % (ptr,))
 
-    def trim(self, tag, depth=3):
+    def store_len(self, st, mid, new):
+        ms = st.maps[mid]
+        z = st.zone
+        old = ms.len
+        grow1 = z.entails_eq(new, old, 1) and not ms.exempt
+        scanned = self.miss_complete(st, mid) if grow1 else None
+        if grow1 and scanned is None:
+            ex = ms.examined
+            st.log('scan-incomplete', mid, ex, self.facts_about(st, [old] + ([ex[1], ex[2]] if ex else [])))
+        lv = slots.live(st, mid, old) if grow1 else None
+        ktag = slots.content(st, mid, old)[0] if (grow1 and lv is True) else None
+        out = slots.set_len(st, mid, new)
+        for s in out:
+            m2 = s.maps[mid]
+            if grow1:
+                if lv is True:
+                    self.note_append(s, mid, old, ktag, scanned)
+                else:
+                    m2.pending = (old, scanned)
+                    m2.examined = None
+            elif not s.zone.entails_eq(m2.len, old):
+                m2.examined = None
+                if not ms.exempt and not s.zone.entails_le(m2.len, old):
+                    # len grows by something else than one: not an append the rules understand
+                    s.log('len-jump', mid, old, new)
+        return out
+
+    def trim(self, tag, depth=5):
         """bound the nesting of provenance tags (they only feed the path log)"""
         if not isinstance(tag, tuple):
             return tag
@@ -599,6 +646,112 @@ class Interp:
         if v[0] == 'ref':
             return ('ref', v[2])
         return (v[0],)
+
+    def rtag(self, st, v, depth=0):
+        """resolved provenance of a value: references are followed to what they point at
+        (a slot position, a local holding a tagged value, user memory)"""
+        if not isinstance(v, tuple) or not v or depth > 6:
+            return ('?',)
+        h = v[0]
+        if h == 'ref':
+            p = v[2]
+            if p[0] == 'pair':
+                return ('slot', p[1], p[2], p[3])
+            if p[0] in ('L', 'O'):
+                try:
+                    return self.rtag(st, self.load(st, p, quiet=True), depth + 1)
+                except Exception:
+                    return ('ref', p)
+            if p[0] == 'opq':
+                return self.trim(p[1])
+            return ('ref', p)
+        if h == 'opq':
+            return self.trim(v[1])
+        if h == 'unk':
+            return v[2]
+        if h == 'tuple':
+            return ('tuple',) + tuple(self.rtag(st, x, depth + 1) for x in v[1])
+        return (h,)
+
+    # ------------------------------------------------------------------ key scans (DESIGN §2.2)
+    @staticmethod
+    def tag_mentions(tag, t):
+        if tag == t:
+            return True
+        if isinstance(tag, tuple):
+            if isinstance(t, tuple) and len(tag) >= len(t) and tag[:len(t)] == t:
+                return True
+            return any(Interp.tag_mentions(x, t) for x in tag if isinstance(x, tuple))
+        return False
+
+    def invalidate_examined(self, st, tag):
+        """a new value with provenance `tag` comes into existence: scans made for the previous
+        bearer of that tag say nothing about it"""
+        for ms in st.maps.values():
+            if ms.examined is not None and self.tag_mentions(ms.examined[0], tag):
+                st.log('scan-invalidated', tag)
+                ms.examined = None
+
+    @staticmethod
+    def slot_key_side(t):
+        """tag of a comparison operand -> (mid, idx) when it is (a borrow of) the key of a slot"""
+        while isinstance(t, tuple) and t and t[0] == 'borrow':
+            t = t[1]
+        if isinstance(t, tuple) and len(t) == 4 and t[0] == 'slot' and t[3] == (0,):
+            return t[1], t[2]
+        return None
+
+    @staticmethod
+    def strip_borrow(t):
+        while isinstance(t, tuple) and t and t[0] == 'borrow':
+            t = t[1]
+        return t
+
+    def note_answer(self, st, tag, truth):
+        """user code answered `truth` to the question `tag` (normalised: negations removed)"""
+        while isinstance(tag, tuple) and tag and tag[0] == 'not':
+            tag = tag[1]
+            truth = not truth
+        if not (isinstance(tag, tuple) and tag and tag[0] == 'eq' and len(tag) == 3):
+            return
+        a, b = tag[1], tag[2]
+        sa, sb = self.slot_key_side(a), self.slot_key_side(b)
+        if (sa is None) == (sb is None):
+            return
+        (mid, idx), other = (sa, self.strip_borrow(b)) if sa is not None else (sb, self.strip_borrow(a))
+        ms = st.maps.get(mid)
+        if ms is None:
+            return
+        z = st.zone
+        if truth:
+            st.log('hit', mid, idx, other)
+            return
+        ex = ms.examined
+        if ex is not None and tag_eq(z, ex[0], other):
+            lo, hi = ex[1], ex[2]
+            if z.entails_eq(idx, hi):
+                ms.examined = (other, lo, slots.plus(st, idx, 1))
+                return
+            if z.entails_le(lo, idx) and z.entails_lt(idx, hi):
+                return
+        if z.entails_eq(idx, 0):
+            ms.examined = (other, 0, slots.plus(st, idx, 1))
+        else:
+            st.log('scan-lost', mid, idx, ex, other, ('keyeq', ex is not None and tag_eq(z, ex[0], other)), ('idx-hi', ex and z.d.get((idx, ex[2])), ex and z.d.get((ex[2], idx))))
+            ms.examined = None
+
+    def miss_complete(self, st, mid, upto=None):
+        """-> key tag for which the whole live prefix [0, upto) was compared with answer "no"
+        (None if there is no such scan; ('<empty>',) when the prefix is empty)"""
+        ms = st.maps[mid]
+        z = st.zone
+        end = ms.len if upto is None else upto
+        if z.entails_eq(end, 0):
+            return ('<empty>',)
+        ex = ms.examined
+        if ex is not None and z.entails_eq(ex[1], 0) and z.entails_eq(ex[2], end):
+            return ex[0]
+        return None
 
     # ------------------------------------------------------------------ slot primitives
     def check_index(self, st, mid, idx, prim):
@@ -644,6 +797,7 @@ class Interp:
         except Unproven as e:
             self.violate('SHAPE', 'unproven', prim, str(e))
         st.log('read', mid, idx, (kt, vt))
+        st.maps[mid].examined = None
         return ('tuple', (('opq', kt), ('opq', vt)))
 
     def slot_write(self, st, mid, idx, val, prim):
@@ -664,7 +818,28 @@ class Interp:
             tags = (self.tag_of(val) + (0,), self.tag_of(val) + (1,))
         slots.set_content(st, mid, idx, tags)
         st.log('write', mid, idx, tags)
+        ms = st.maps[mid]
+        pend = ms.pending
+        if pend is not None and st.zone.entails_eq(pend[0], idx):
+            # the slot that an earlier `len += 1` already covers is filled now: this is the append
+            self.note_append(st, mid, idx, tags[0], pend[1])
+            ms.pending = None
+        elif not st.zone.entails_le(ms.len, idx):
+            # a write below len (refill of a hole): scans made before it are stale
+            ms.examined = None
         return [st]
+
+    def note_append(self, st, mid, idx, ktag, scanned):
+        """slot idx joins the live prefix holding key `ktag`; `scanned` = key tag of a completed
+        full-prefix miss (or None)"""
+        ok = scanned is not None and (scanned == ('<empty>',) or tag_eq(st.zone, scanned, ktag))
+        st.log('append', mid, idx, ktag, ok, scanned)
+        self.oblig('APPEND-AFTER-MISS', ok, 'append',
+                   'slot %s joins the live prefix of %s holding key %r, but no completed scan of the whole '
+                   'prefix for that same key precedes it on this path (scan seen: %r); path tail: %s'
+                   % (idx, mid, ktag, scanned, ' | '.join(str(e) for e in st.events[-12:])),
+                   'unproven', sample='key %r compared with every live key before the append' % (ktag,))
+        st.maps[mid].examined = None
 
     # ------------------------------------------------------------------ operands / rvalues
     def eval_place(self, st, fid, place):
@@ -1006,6 +1181,10 @@ class Interp:
             fields = tuple(self.mk_unknown(s, ft, val[2] + (vi, i), gs) for i, ft in enumerate(ftys))
             nvval = ('adt', path, vi, fields)
             s.log('variant', val[2], vi)
+            if len(fields) == 1 and fields[0][0] == 'adt' and self.struct_inv_fields(fields[0][1]) is not None:
+                ix = fields[0][3][self.struct_inv_fields(fields[0][1])[0]]
+                if ix[0] == 'int':
+                    s.log('variant-val', val[2], vi, ix[1])
             for s2 in self.store(s, ptr, nvval):
                 out.append((s2, I(vi)))
         return out
